@@ -1,6 +1,7 @@
 import Props.GenCapstoneJoin
 import Props.GenCapstoneAppend
 import Props.GenCapstoneViews
+import Props.GenCapstoneRebuild
 import Proofs.System
 /-!
 # Props.GenCapstoneSystem — every history of the TRANSLATED operations
@@ -9,7 +10,8 @@ import Proofs.System
 operations leaves, where each operation is performed **by the code as translated from the Go source**: an `Append`
 is the translated plan followed by the translated tail (the created entry gets a fresh non-empty CID; lists
 de-duplicated by the translated `uniqueCIDs`), a `Join` is the translated `difference` followed by the translated
-tail of `Join`.  The constructors only say "the translated function returned this"; nothing of the hand-written
+tail of `Join`, a load (`NewFromJSON` of a replica's entries as some complete fetch delivered them, any order) is the
+translated glue of `fromJSON` followed by the translated core of `NewLog` and adds a replica.  The constructors only say "the translated function returned this"; nothing of the hand-written
 model appears in them except the fuel and the ordering function the log is configured with.
 
 `treach_inv`: after any such history every replica satisfies the structural invariant, all have one id, hashes are
@@ -43,6 +45,14 @@ inductive TReach : List Entry → List Log → Prop
       (ht : Generated.Go.joinTail (fun E H => values { A with entries := E, heads := H })
               A.entries A.nextIdx A.heads A.clock.id A.clock.time cands B.heads (-1) = some (A.clock.id, t, E', N', H')) :
       TReach U (L.set i { A with entries := E', nextIdx := N', heads := H', clock := ⟨A.clock.id, t⟩ })
+
+  | load {U : List Entry} {L : List Log} (r : TReach U L) (l : Log) (hl : l ∈ L) (fetched : List Entry)
+      (hnd : (hashes fetched).Nodup) (hin : ∀ e ∈ fetched, e ∈ U)
+      (hset : ∀ h, h ∈ hashes fetched ↔ h ∈ hashes l.entries) (cid : Bytes)
+      (ents : List Entry) (t : Int) (H : List Entry) (N : List Hash)
+      (hf : Generated.Go.fromJSONTail none fetched = some ents)
+      (hn : Generated.Go.newLogCore none [] ents = (t, H, N)) :
+      TReach U (L ++ [{ id := l.id, entries := ents, heads := H, nextIdx := N, clock := ⟨cid, t⟩, sortFn := l.sortFn }])
 
 theorem mem_set_cases {α : Type} {L : List α} {i : Nat} {v x : α} (hx : x ∈ L.set i v) : x = v ∨ x ∈ L := by
   rcases List.mem_or_eq_of_mem_set hx with h | h
@@ -124,6 +134,27 @@ theorem treach_inv {U : List Entry} {L : List Log} (r : TReach U L) : TInv U L :
       · subst h1; exact ih.sameId A hAm b h2
       · subst h2; exact ih.sameId a h1 A hAm
       · exact ih.sameId a h1 b h2
+  | @load U L _ l hl fetched hnd hin hset cid ents t H N hf hn ih =>
+    obtain ⟨ents', t', H', N', hf', hn', _, _, hinv⟩ := translated_rebuild_json ih.uNodup (ih.inv l hl) fetched hnd hin hset cid
+    rw [hf] at hf'
+    have e0 : ents = ents' := Option.some.inj hf'
+    subst e0
+    rw [hn] at hn'
+    have e1 : t = t' := (Prod.mk.inj hn').1
+    have e2 : H = H' := (Prod.mk.inj (Prod.mk.inj hn').2).1
+    have e3 : N = N' := (Prod.mk.inj (Prod.mk.inj hn').2).2
+    subst e1 e2 e3
+    refine ⟨ih.uNodup, ih.uNe, ?_, ?_⟩
+    · intro x hx
+      rcases List.mem_append.mp hx with h1 | h1
+      · exact ih.inv x h1
+      · rw [List.mem_singleton] at h1; subst h1; exact hinv
+    · intro a ha b hb
+      rcases List.mem_append.mp ha with h1 | h1 <;> rcases List.mem_append.mp hb with h2 | h2
+      · exact ih.sameId a h1 b h2
+      · rw [List.mem_singleton] at h2; subst h2; exact ih.sameId a h1 l hl
+      · rw [List.mem_singleton] at h1; subst h1; exact ih.sameId l hl b h2
+      · rw [List.mem_singleton] at h1 h2; subst h1 h2; rfl
 
 /-- **C02 and C03 for every replica of every state reachable by the translated operations**, observed through the
     translated `ToSnapshot` -/
